@@ -154,3 +154,293 @@ def rule_skip_pair(ctx, R):
         R.inst(b.fn, "length-update", {"writes": len(w)})
         if not w:
             R.finding(b.fn, "length-update:missing", "%s does not update length" % nm, b.loc())
+
+
+# ---------------------------------------------------------------------------------------------
+# R-SKIP-CMP / R-SKIP-SEARCH / R-SKIP-KEYSTORE: the order itself
+
+COMPARATORS = ("compare_nodes", "compare_with_query")
+RAW_CMP = re.compile(r"^<(?P<ty>[^>]+) as std::cmp::PartialOrd(<[^>]*>)?>::(?P<op>lt|le|gt|ge)$")
+
+
+def param_roots(b, op):
+    if op_is_const(op):
+        return set()
+    P = prov.operand_origins(b, op)
+    return {r[1] for r in P.roots if r[0] == "param"}
+
+
+def rule_skip_cmp(ctx, R):
+    """the two comparators are the lexicographic (score, member) order with the arguments in
+    order: partial_cmp(first score, second score); its Equal arm returns Ord::cmp(first key,
+    second key); every other Some arm returns partial_cmp's own ordering unchanged."""
+    n = 0
+    for nm in COMPARATORS:
+        b = ctx.prog.bodies.get(SL + nm)
+        if b is None:
+            continue
+        n += 1
+        pcs = [(i, t) for i, t in b.calls() if re.search(r"PartialOrd(<[^>]*>)?>::partial_cmp$", t["f"] or "")]
+        facts = {"partial_cmp_calls": len(pcs)}
+        if len(pcs) != 1:
+            R.inst(b.fn, "comparator", facts)
+            R.finding(b.fn, "comparator:score-compare-shape", "%s does not compare the two scores with exactly one partial_cmp" % nm, b.loc()); continue
+        i, t = pcs[0]
+        a0, a1 = param_roots(b, t["a"][0]), param_roots(b, t["a"][1])
+        facts["score_args"] = [sorted(a0), sorted(a1)]
+        if a0 != {2} or a1 != {4}:
+            R.finding(b.fn, "comparator:score-args", "%s compares the scores as partial_cmp(param %s, param %s); the order is (first pair, second pair) = (2, 4)" % (nm, sorted(a0), sorted(a1)), b.loc(i))
+        rs = shared.result_switch(b, i)
+        res = t["d"]["l"]
+        osw = None
+        if rs:
+            for x in rs["ok"]:
+                tt = b.term(x)
+                if tt["k"] == "switch":
+                    dl = op_local(tt["d"])
+                    for st in b.stmts(x):
+                        if st["k"] == "=" and st["l"]["l"] == dl and st["r"]["k"] == "discr" and st["r"]["p"]["l"] == res and st["r"]["p"]["p"]:
+                            osw = (x, tt)
+        if osw is None:
+            R.inst(b.fn, "comparator", facts)
+            R.finding(b.fn, "comparator:no-equal-arm", "%s does not distinguish equal scores (no switch on the ordering inside Some)" % nm, b.loc(i)); continue
+        x, tt = osw
+        ts = dict(tt["ts"])
+        if 0 not in ts:
+            R.inst(b.fn, "comparator", facts)
+            R.finding(b.fn, "comparator:no-equal-arm", "%s has no arm for equal scores" % nm, b.loc(x)); continue
+        eq_reg = cfg.edge_dom_set(b, x, ts[0])
+        other = [tb for v, tb in tt["ts"] if v != 0] + [tt["o"]]
+        ne_reg = set()
+        for tb in other:
+            if b.term(tb)["k"] != "unreachable":
+                ne_reg |= cfg.edge_dom_set(b, x, tb)
+        # equal arm: _0 written only by Ord::cmp(first key, second key)
+        eq_ok = False; eq_bad = []
+        for y in sorted(eq_reg):
+            ty = b.term(y)
+            if ty["k"] == "call" and ty["d"]["l"] == 0 and not ty["d"]["p"]:
+                if re.search(r"std::cmp::Ord>::cmp$", ty["f"] or ""):
+                    k0, k1 = param_roots(b, ty["a"][0]), param_roots(b, ty["a"][1])
+                    facts["key_args"] = [sorted(k0), sorted(k1)]
+                    if k0 == {3} and k1 == {5}:
+                        eq_ok = True
+                    else:
+                        eq_bad.append("Ord::cmp(param %s, param %s)" % (sorted(k0), sorted(k1)))
+                else:
+                    eq_bad.append("call " + (ty["f"] or "?"))
+            for st in b.stmts(y):
+                if st["k"] == "=" and st["l"]["l"] == 0 and not st["l"]["p"]:
+                    eq_bad.append("direct assignment")
+        if not eq_ok or eq_bad:
+            R.finding(b.fn, "comparator:tie-break", "%s: with equal scores the result is not Ord::cmp(first member, second member) [%s]: members with one score are not ordered by their bytes" % (nm, "; ".join(eq_bad) or "no key comparison"), b.loc(x))
+        # other arms: _0 is a plain copy of the partial_cmp payload
+        ne_bad = []; ne_ok = False
+        for y in sorted(ne_reg):
+            ty = b.term(y)
+            if ty["k"] == "call" and ty["d"]["l"] == 0:
+                ne_bad.append("call " + (ty["f"] or "?"))
+            for st in b.stmts(y):
+                if st["k"] == "=" and st["l"]["l"] == 0 and not st["l"]["p"]:
+                    r = st["r"]
+                    if r["k"] == "use" and not op_is_const(r["o"]):
+                        P = prov.operand_origins(b, r["o"], stop_calls=re.compile(r"partial_cmp$"))
+                        if all(q[0] == "call" and q[1].endswith("partial_cmp") for q in P.roots) and P.roots and not [v for v in P.via if re.search(r"reverse|then", v[0])]:
+                            ne_ok = True; continue
+                    ne_bad.append("assignment not from partial_cmp")
+        if not ne_ok or ne_bad:
+            R.finding(b.fn, "comparator:score-order", "%s: with different scores the result is not partial_cmp's own ordering [%s]" % (nm, "; ".join(ne_bad) or "no assignment"), b.loc(x))
+        facts.update({"equal_arm_blocks": len(eq_reg), "other_arm_blocks": len(ne_reg)})
+        R.inst(b.fn, "comparator", facts)
+    R.floor("comparators", n)
+
+
+def cursor_local(b):
+    for l, nm in b.names.items():
+        if nm == "current":
+            return l
+    return None
+
+
+def arg_node_field(b, op, depth=4):
+    """the node field an argument borrows: `&(*next).value` -> ['value']"""
+    if op_is_const(op) or depth == 0:
+        return []
+    l = op_place(op)["l"]
+    out = set()
+    for kind, bbi, x in prov.build_defs(b).get(l, ()):
+        if kind != "stmt" or x["l"]["p"]:
+            continue
+        r = x["r"]
+        if r["k"] == "ref":
+            fs = [e["f"] for e in r["p"]["p"] if isinstance(e, dict) and "f" in e]
+            if fs and "SkipListNode." in fs[-1]:
+                out.add(fs[-1].rsplit(".", 1)[-1])
+            elif not fs:
+                out |= set(arg_node_field(b, {"cp": {"l": r["p"]["l"], "p": []}}, depth - 1))
+        elif r["k"] == "use":
+            out |= set(arg_node_field(b, r["o"], depth - 1))
+    return sorted(out)
+
+
+def rule_skip_search(ctx, R):
+    """sibling agreement of the search loops (insert position, unlink position, rank): each
+    compares (next.value, next.key) -- in that order -- with the sought (score, member) through a
+    full comparator and advances the cursor on the Less arm only."""
+    n = 0
+    for fn, b in sorted(ctx.prog.bodies.items()):
+        if not fn.startswith(SL) or "::tests::" in fn or "{closure" in fn:
+            continue
+        for i, t in b.calls():
+            c = callee(t)
+            if c not in (SL + COMPARATORS[0], SL + COMPARATORS[1]):
+                continue
+            if not any(i in body for body in cfg.loops(b).values()):
+                continue
+            n += 1
+            short = fn.split("::")[-1]
+            key = "search:%s" % short
+            # arguments: 1,2 from a node (deref of a pointer local, fields value/key); 3,4 from params
+            fld = []
+            for a in t["a"][1:3]:
+                fld.append(arg_node_field(b, a))
+            q = [sorted(param_roots(b, a)) for a in t["a"][3:5]]
+            sw = None
+            tgt = t["t"]
+            for _ in range(3):
+                tt = b.term(tgt)
+                if tt["k"] == "switch":
+                    dl = op_local(tt["d"])
+                    if any(st["k"] == "=" and st["l"]["l"] == dl and st["r"]["k"] == "discr" and st["r"]["p"]["l"] == t["d"]["l"] for st in b.stmts(tgt)):
+                        sw = (tgt, tt)
+                    break
+                if tt["k"] == "goto":
+                    tgt = tt["t"]
+                else:
+                    break
+            facts = {"function": fn, "at": b.loc(i), "node_fields": fld, "query_params": q}
+            if fld != [["value"], ["key"]]:
+                R.finding(fn, key + ":node-args", "the search in %s hands the comparator node fields %s (must be value, key of the next node)" % (short, fld), b.loc(i))
+            if not q[0] or not q[1] or q[0] == q[1]:
+                R.finding(fn, key + ":query-args", "the search in %s does not compare with the sought (score, member) parameters (%s)" % (short, q), b.loc(i))
+            if sw is None:
+                R.inst(fn, key, facts)
+                R.finding(fn, key + ":result-not-switched", "comparator result not inspected", b.loc(i)); continue
+            cur = cursor_local(b)
+            adv = []
+            x, tt = sw
+            arms = [(v, tb) for v, tb in tt["ts"]] + [("otherwise", tt["o"])]
+            for v, tb in arms:
+                reg = cfg.edge_dom_set(b, x, tb)
+                # blocks of the arm before the loop is re-entered or left
+                wrote = False
+                for y in reg:
+                    for st in b.stmts(y):
+                        if st["k"] == "=" and st["l"]["l"] == cur and not st["l"]["p"]:
+                            wrote = True
+                if wrote:
+                    adv.append(v)
+            facts["advance_arms"] = adv
+            R.inst(fn, key, facts)
+            if adv != [255]:
+                R.finding(fn, key + ":advance-arms", "the search loop of %s moves the cursor on comparator outcome(s) %s; the sibling searches move on Less (255) only, so the three searches no longer stop at the same node" % (short, adv), b.loc(x))
+    R.floor("search_loops", n)
+
+
+NODE_KEY_FIELDS = ("SkipListNode.value", "SkipListNode.key")
+
+
+def ordering_key_stores(b, fields=NODE_KEY_FIELDS):
+    """(bb, line, field) of stores through a pointer into an ordering-key field of a node"""
+    out = []
+    def hit(pl):
+        pr = pl["p"]
+        fs = [e["f"] for e in pr if isinstance(e, dict) and "f" in e]
+        if "*" in pr and fs and any(fs[-1].endswith(f) for f in fields):
+            return fs[-1].rsplit(".", 1)[-1]
+        return None
+    for i, bb in enumerate(b.bbs):
+        if bb.get("cleanup"):
+            continue
+        for st in bb["s"]:
+            if st["k"] == "=":
+                h = hit(st["l"])
+                if h:
+                    out.append((i, st.get("line"), h))
+        t = bb["t"]
+        if t["k"] == "call" and t.get("d") and t["d"].get("p"):
+            h = hit(t["d"])
+            if h:
+                out.append((t["t"] if t["t"] >= 0 else i, t.get("line"), h))
+    return out
+
+
+def inplace_store_issues(ctx, b, fields=NODE_KEY_FIELDS, comparators=None):
+    """an in-place store into the ordering key of a linked node keeps the list sorted only if the
+    new key lies strictly between the neighbours in the (score, member) order.  Reported:
+    (a) the store is reachable from an edge of a raw score comparison that admits equality
+        (`!(a > b)`, `a >= b`): an equal score needs the member tie-break;
+    (b) no comparison at all reaches the store."""
+    issues = []
+    stores = ordering_key_stores(b, fields)
+    if not stores:
+        return stores, issues
+    comparators = comparators or {SL + c for c in COMPARATORS}
+    guards = []
+    for i, t in b.calls():
+        m = RAW_CMP.match(t["f"] or "")
+        if m and t["t"] >= 0:
+            sw = shared._follow_to_switch(b, t["t"], t["d"]["l"])
+            if sw is None:
+                continue
+            ts = dict(sw[1]["ts"])
+            f_t, t_t = ts.get(0), sw[1]["o"]
+            eq_edge = f_t if m.group("op") in ("gt", "lt") else t_t
+            guards.append(("raw:" + m.group("op"), i, eq_edge))
+        elif callee(t) in comparators:
+            guards.append(("full", i, None))
+    for s, line, fld in stores:
+        reaching = [g for g in guards if s in cfg.fwd(b, [g[1]])]
+        for kind, i, eq_edge in reaching:
+            if eq_edge is not None and s in cfg.fwd(b, [eq_edge]):
+                issues.append(("inplace-%s:equal-score-admitted" % fld,
+                               "a node's %s is overwritten in place (line %s) on a path where a bare score comparison (%s, line %d) admits an equal score: with a tie the member bytes decide the position, so the list can become unsorted" % (fld, line, kind, b.bb_line(i)), s))
+                break
+        else:
+            if not reaching:
+                issues.append(("inplace-%s:unguarded" % fld, "a node's %s is overwritten in place (line %s) without any comparison with its neighbours" % (fld, line), s))
+    return stores, issues
+
+
+def rule_skip_keystore(ctx, R):
+    n = 0
+    rescorers = set()
+    for fn, b in sorted(ctx.prog.bodies.items()):
+        if not fn.startswith("storage::skiplist::") or "::tests::" in fn:
+            continue
+        n += 1
+        stores, issues = inplace_store_issues(ctx, b)
+        if stores:
+            rescorers.add(fn)
+            R.inst(fn, "inplace-key-stores", {"function": fn, "stores": len(stores), "issues": len(issues)})
+        seen = set()
+        for key, msg, s in issues:
+            if key in seen:
+                continue
+            seen.add(key)
+            R.finding(fn, key, msg, b.loc(s))
+    R.inst("storage::skiplist", "functions-scanned-for-in-place-key-stores", {"functions": n, "with_stores": len(rescorers)})
+    R.floor("skiplist_functions_scanned", n)
+    # on the re-scoring path of insert every way to the exit links a node (or goes through an
+    # in-place re-scorer judged above)
+    ins = ctx.prog.need(SL + "insert")
+    inn = {i for i, t in ins.calls() if callee(t) == SL + "insert_new_node" or callee(t) in rescorers}
+    for i, t in ins.calls():
+        if re.search(r"HashMap::<K, V>::insert(::<.*>)?$", t["f"] or "") and t["a"]:
+            P = prov.operand_origins(ins, t["a"][0])
+            if any(f.endswith("SkipListInner.key_index") for f in P.fields):
+                p = cfg.path_avoiding(ins, [i], set(ins.exits()), inn)
+                R.inst(ins.fn, "index-insert-must-link", {"at": ins.loc(i), "path_without_link": p is not None})
+                if p is not None:
+                    R.finding(ins.fn, "index-insert:path-without-link", "after key_index is updated (line %d) a path reaches the exit without linking a node for the new score" % ins.bb_line(i), ins.loc(i),
+                              witness=["bb%d %s" % (x, ins.loc(x)) for x in p][:8])
